@@ -157,6 +157,7 @@ def run(ctx):
     err_trap_direct(ctx)
     own_trap_family(ctx)
     signal_trap_family(ctx)
+    nested_trap_family(ctx)
     ctx.cov["rule"] = ("termination paths (end, failing end, exit n, bare exit, errexit) x 12 nesting contexts x 7 handler bodies "
                        "(plain, exit n, failing under errexit, function call, subshell exit, loop) x {-c, script file, stdin}, trap set / "
                        "replaced / removed, plus seeded random control-flow programs; brush vs bash vs the trap model; ERR-trap "
@@ -262,6 +263,65 @@ def signal_trap_family(ctx):
                                    "a trapped (or ignored) signal sent to the shell itself kills it: no handler, no EXIT trap", case)
         else:
             ctx.violation("signal trap: brush and bash differ", case, kind="property")
+
+
+
+def nested_trap_family(ctx):
+    """Something that itself saves and restores `$?` runs INSIDE the EXIT handler: another trap (ERR for a failing
+    command of the handler, DEBUG before each of its commands, RETURN for a function it calls) or the xtrace prefix
+    expansion.  The shell must still end with the terminating status (found missing by seed C16-4).  brush vs bash."""
+    ways = {"exit3": ("X", 3), "end_fail": L(1, 6), "errexit": ("S", [("O", "e", True), L(1, 7), L(2, 0)]), "end": L(1, 0),
+            "exit_last": ("S", [L(1, 5), ("X", None)])}
+    ctxs = {"top": lambda c: c, "func": None, "loop": lambda c: ("F", 2, c), "subshell_then_exit": lambda c: ("S", [("Su", L(8, 2)), c])}
+    extras = ["trap 'echo \"E$?\" >&3' ERR", "trap 'echo \"E$?\" >&3' ERR; set -E", "trap ': dbg' DEBUG", "trap ': dbg' DEBUG; set -T",
+              "trap 'echo R >&3' RETURN", "exec 2>/dev/null; set -x", "exec 2>/dev/null; PS4='+$? '; set -x",
+              "trap 'echo \"E$?\" >&3' ERR; trap ': dbg' DEBUG", "trap ': usr' USR1"]
+    cases = []
+    for wn, w in ways.items():
+        for cn, cf in ctxs.items():
+            if cn == "func":
+                funcs, body = [("S", [L(60, 0), w, L(61, 0)])], ("K", 0)
+            else:
+                funcs, body = [L(62, 0)], cf(("S", [L(63, 0), w, L(64, 0)]))
+            main = ("S", [L(70, 0), body, ("P",), L(71, 0)])
+            for hn, hb in HANDLERS:
+                if hn in ("exit9", "exit_last", "subshell_exit"):
+                    continue        # handlers that end the shell themselves: recorded finding exit_in_trap_handler_ignored
+                for ex in extras:
+                    script, _ = build(funcs, main, hb, "set")
+                    lines = script.rstrip("\n").split("\n")
+                    script = "\n".join(lines[:-1] + [ex, lines[-1]]) + "\n"
+                    for mode in ("c", "file"):
+                        cases.append((wn + "/" + cn + "/" + hn, script, mode))
+    res = lib.pmap(lambda c: (lib.run_shell("brush", c[1], mode=c[2], timeout=20), lib.run_shell("bash", c[1], mode=c[2], timeout=20)), cases)
+    for i, (b, o) in enumerate(res):
+        if b["timeout"] or o["timeout"]:
+            c = cases[i]
+            res[i] = (lib.run_shell("brush", c[1], mode=c[2], timeout=120), lib.run_shell("bash", c[1], mode=c[2], timeout=120))
+    for (tag, script, mode), (b, o) in zip(cases, res):
+        ctx.count("nest" + script + mode, nontrivial=True, bucket="nested-trap")
+        ctx.impl_validated += 1
+        cb, co = canon(b), canon(o)
+        if cb == co:
+            continue
+        case = {"script": script, "mode": mode, "family": tag, "brush": cb, "bash": co, "brush_stderr": b["err"][-200:]}
+        tb, to = _toks(cb), _toks(co)
+        ish = lambda t: t[0] in "Ee" or t == "R"
+        rest_b, rest_o = [t for t in tb if not ish(t)], [t for t in to if not ish(t)]
+        eb, eo = [t for t in tb if ish(t)], [t for t in to if ish(t)]
+        same_status = cb.split(" ")[0] == co.split(" ")[0]
+        # errexit (switched on by the program) strikes inside the handler: the handler ends the shell itself
+        ends_itself = tag.startswith("errexit/") and tag.rsplit("/", 1)[1] in ("fails", "loop", "calls_func")
+        if rest_b == rest_o and _subseq(eo, eb) and (same_status or ends_itself):
+            if eb != eo:
+                ctx.known_or_violation("err_trap_fires_again_for_leaving_command",
+                                       "the ERR handler also runs for a command that is itself leaving (exit/return/errexit)", case)
+            if not same_status:
+                ctx.known_or_violation("exit_in_trap_handler_ignored",
+                                       "EXIT handler failing under errexit: the status it ends the shell with is ignored", case)
+        else:
+            ctx.violation("a trap or trace running inside the EXIT handler: brush and bash differ (status / handler runs)", case,
+                          kind="property")
 
 
 ERR_TRAPS = ["trap 'echo \"E$?\" >&3' ERR", "trap 'echo \"E$?\" >&3; (exit 4)' ERR", "trap 'echo \"E$?\" >&3' ERR; set -E",
